@@ -97,6 +97,8 @@ type GameSpec struct {
 	HitPct    int      `json:"hit_pct"`   // probability a ponder move is "hit"
 	GuiLagUs  int64    `json:"gui_lag_us"`
 	UseBook   bool     `json:"use_book,omitempty"`
+	// MoveTimeMs > 0: every move is searched with "go movetime" instead of the clocks
+	MoveTimeMs int64 `json:"movetime_ms,omitempty"`
 }
 
 // BookSpec describes a book build / cache scenario (C19, C20).
